@@ -511,7 +511,11 @@ struct QueryOut {
 /// Steps (goal expansions, told by the guarded hook in the search loops) one query may take. The
 /// search is exponential in max_depth on some rule sets; a run that would exceed the budget is
 /// abandoned as inconclusive — deterministically, by count, never by wall-clock.
-const SEARCH_STEP_BUDGET: u64 = 150_000;
+const SEARCH_STEP_BUDGET: u64 = 60_000;
+/// With an attached RETE engine every rule execution scans that engine's working memory, which grows by one
+/// logical fact per execution (roll-backs never retract there): the cost of a step grows with the steps
+/// taken, so the budget is much smaller (a thorough batch met a run of more than ten minutes otherwise)
+const SEARCH_STEP_BUDGET_WITH_RETE: u64 = 4_000;
 const BUDGET: &str = "\u{0}search-step-budget-exhausted";
 
 /// `query_aggregate` under the same step budget; None = budget exhausted (run abandoned)
@@ -531,7 +535,7 @@ fn run_query(engine: &mut BackwardEngine, goal: &str, facts: &mut Facts, rete: &
     let depth_before = facts.verif_undo_depth();
     rust_rule_engine::verif_hooks::set_step(Some(Box::new(|_site| budget::tick())));
     let spent_before = budget::spent();
-    let r = budget::with_budget(SEARCH_STEP_BUDGET, || match rete {
+    let r = budget::with_budget(if rete.is_some() { SEARCH_STEP_BUDGET_WITH_RETE } else { SEARCH_STEP_BUDGET }, || match rete {
         Some(e) => engine.query_with_rete_engine(goal, facts, Some(e.clone())),
         None => engine.query(goal, facts),
     });
@@ -1288,6 +1292,7 @@ impl World for BwdWorld {
                 "C11 compares the provable verdict (the property's observable), not the facts handed back".into(),
                 "the frame clauses driven by direct client calls involve no seam: that part is a seeded history against a model (DESIGN.md §5)".into(),
             ],
+            hang_is_a_verdict: false,
             required_probes: probes,
             quick_runs: 25_000,
             thorough_runs: 600_000,
